@@ -279,6 +279,64 @@ theorem has_deregister (r : Registry) (n m : Bytes) :
       · have : (e.1 == m) = false := by simpa using hm
         simp [this]
 
+/-! #### the definition a name is registered with -/
+
+theorem get?_none_iff (r : Registry) (n : Bytes) : r.get? n = none ↔ r.has n = false := by
+  induction r with
+  | nil => simp [Registry.get?, Registry.has]
+  | cons e t ih =>
+    simp only [Registry.get?, Registry.has, List.any_cons] at ih ⊢
+    by_cases h : (e.1 == n) = true
+    · simp [h]
+    · have h' : (e.1 == n) = false := by simpa using h
+      simp [h', ih]
+
+theorem get?_append (r s : Registry) (n : Bytes) :
+    (r ++ s).get? n = match r.get? n with | some d => some d | none => s.get? n := by
+  induction r with
+  | nil => simp [Registry.get?]
+  | cons e t ih =>
+    simp only [List.cons_append, Registry.get?]
+    by_cases h : (e.1 == n) = true
+    · simp [h]
+    · have h' : (e.1 == n) = false := by simpa using h
+      simp [h', ih]
+
+theorem get?_single (m n : Bytes) (d : TDef) :
+    Registry.get? [(m, d)] n = if m == n then some d else none := by
+  simp [Registry.get?]
+
+theorem get?_deregister (r : Registry) (n m : Bytes) :
+    (deregister r n).get? m = if m == n then none else r.get? m := by
+  induction r with
+  | nil => simp [deregister, Registry.get?]
+  | cons e t ih =>
+    simp only [deregister, List.filter_cons] at ih ⊢
+    by_cases h : e.1 = n
+    · subst h
+      simp only [beq_self_eq_true, Bool.not_true, Bool.false_eq_true, ↓reduceIte, ih,
+        Registry.get?]
+      by_cases hm : m = e.1
+      · subst hm; simp
+      · have h1 : (m == e.1) = false := by simpa using hm
+        have h2 : (e.1 == m) = false := by simpa using fun h => hm h.symm
+        simp [h1, h2]
+    · have hne : (e.1 == n) = false := by simpa using h
+      simp only [hne, Bool.not_false, ↓reduceIte, Registry.get?, ih]
+      by_cases hm : e.1 = m
+      · subst hm; simp [hne]
+      · have h2 : (e.1 == m) = false := by simpa using hm
+        simp [h2]
+
+/-- the names announced are the names registered, each with the conversion of the definition it
+is registered with -/
+theorem mem_announced (r : Registry) (n : Bytes) (mv : MV) :
+    (n, mv) ∈ announced r ↔ ∃ d, (n, d) ∈ r ∧ mv = defToMV d := by
+  simp only [announced, List.mem_map, Prod.mk.injEq]
+  constructor
+  · rintro ⟨⟨n', d⟩, he, rfl, rfl⟩; exact ⟨d, he, rfl⟩
+  · rintro ⟨d, he, rfl⟩; exact ⟨(n, d), he, rfl, rfl⟩
+
 theorem register_ok_iff (r : Registry) (name : Bytes) (d : TDef) (r' : Registry) :
     register r name d = .ok r' ↔
       (reserved name = false ∧ r.has name = false ∧ d.WF ∧ (∀ ref, d.Nests ref → r.has ref = true))
